@@ -243,7 +243,7 @@ def check_reads(ctx):
                 if cid(tr[0].args.get('key')) != cid(key):
                     bad.append((p, 'the tree is read under another key')); continue
                 tx = tx_after(p, fn)
-                nonce = deref(tx.fields[env['names'].index('nonce')].val)
+                nonce = deref(tx.fields[env['names'].index('nonce')].val) if env['names'].index('nonce') in tx.fields else None
                 nn = ex.src.struct_fields('snapshot_nonce::SnapshotNonce')
                 inst = nonce.fields[nn.index('instant')].val if isinstance(nonce, Obj) and nn.index('instant') in nonce.fields else None
                 if inst is None or not z3.is_expr(tr[0].args.get('seqno')) or ctx.sat(p.pc + [tr[0].args['seqno'] != inst], ob)[0] != z3.unsat:
@@ -268,7 +268,7 @@ def check_scans(ctx):
                     bad.append((p, f'tree reads {[e.kind + "@" + obj_name(e) for e in tr]}')); continue
                 idx = tr[0].args.get('index')
                 tx = tx_after(p, fn)
-                nonce = deref(tx.fields[env['names'].index('nonce')].val)
+                nonce = deref(tx.fields[env['names'].index('nonce')].val) if env['names'].index('nonce') in tx.fields else None
                 nn = ex.src.struct_fields('snapshot_nonce::SnapshotNonce')
                 inst = nonce.fields[nn.index('instant')].val if isinstance(nonce, Obj) and nn.index('instant') in nonce.fields else None
                 if inst is None or ctx.sat(p.pc + [tr[0].args['seqno'] != inst], ob)[0] != z3.unsat:
